@@ -741,8 +741,7 @@ impl LinkRelay<OutputHandle> {
                             // the sender and receiving a disposition indicating settlement of the
                             // delivery from the sender.
 
-                            // is_terminal
-                            true
+                            is_terminal
                         }
                     }
                 };
